@@ -1,6 +1,6 @@
 """Configuration of ./check C02 (see cfg/README)."""
 
-_GROUPS = ['GlyfDec', 'GlyfLazy', 'Cmap4', 'Cmap12', 'CmapDir', 'Metrics', 'NameCff', 'Otl']   # further checked-index model groups: Drive/Total<G>.lean + harness/area_total_<g>.go
+_GROUPS = ['GlyfDec', 'GlyfLazy', 'Cmap4', 'Cmap12', 'CmapDir', 'Metrics', 'NameCff', 'Otl', 'CffDict']   # further checked-index model groups: Drive/Total<G>.lean + harness/area_total_<g>.go
 
 PROP = {'drive': ['Total'] + ['Total' + g for g in _GROUPS],
  'harness_files': ['area_total.go'] + ['area_total_' + g.lower() + '.go' for g in _GROUPS],
@@ -24,7 +24,9 @@ PROP = {'drive': ['Total'] + ['Total' + g for g in _GROUPS],
                        'C02_cmap0_no_panic', 'C02_lazy_safe_cmap0', 'C02_cmap6_no_panic', 'C02_cmap6_cost', 'C02_cmap06_agree',
                        'C02_coverage_no_panic', 'C02_coverage_cost', 'C02_classdef_no_panic', 'C02_classdef_cost',
                        'C02_classdef_unrepaired_cost_fails', 'C02_classdef_unrepaired_cost', 'C02_otl_agree', 'C02_gdef_concrete_no_panic',
-                       'C02_gdef_unrepaired_alias', 'C02_gdef_alias_cached'],
+                       'C02_gdef_unrepaired_alias', 'C02_gdef_alias_cached',
+                       'C02_simple_agrees', 'C02_post_agrees', 'C02_cffindexat_no_panic', 'C02_cffindexat_cost', 'C02_cffindexat_agrees',
+                       'C02_cffdict_no_panic', 'C02_cffdict_cost', 'C02_cfffloat_no_panic', 'C02_cfffloat_cost', 'C02_cffdict_agrees'],
  'areas': [('total', 3000, 40000)],
  'rule': 'distinct case lines (decoder, bytes); non-trivial = input of at least 4 bytes',
  'partial': [
